@@ -7,8 +7,11 @@ import sys
 import time
 
 VERIF = os.path.dirname(os.path.dirname(os.path.abspath(__file__)))
-EVIDENCE = os.path.join(VERIF, "evidence")
-REPLAYS = os.path.join(VERIF, "replays")
+# a run against ANOTHER source tree (DEP_LOGIC_SRC: seeded changes, mutants, refactorings - the framework's own experiments)
+# must not overwrite the evidence of the tree under verification
+_OTHER_TREE = bool(os.environ.get("DEP_LOGIC_SRC")) and os.path.realpath(os.environ["DEP_LOGIC_SRC"]) != os.path.realpath("/repo/src")
+EVIDENCE = os.path.join(VERIF, "evidence-scratch" if _OTHER_TREE else "evidence")
+REPLAYS = os.path.join(VERIF, "replays-scratch" if _OTHER_TREE else "replays")
 KNOWN = os.path.join(VERIF, "known_findings.json")
 
 LEVELS = {"exploration", "fault_enumeration", "model_checking", "proof", "translation_validation", "other"}
